@@ -236,6 +236,56 @@ impl Check for MaxSpreadPure {
 }
 
 // ---------------------------------------------------------------------------------------------
+// pure: the spread figure the limit is enforced on (constant product)
+// ---------------------------------------------------------------------------------------------
+
+pub struct SpreadFigure;
+
+impl Check for SpreadFigure {
+    type Case = crate::props::c02::Case;
+    fn name(&self) -> &'static str {
+        "reported_spread_is_the_price_impact"
+    }
+    fn rule(&self) -> &'static str {
+        "constant-product compute_swap through the hook over the C02 input domain (reserves and offers in [1,2^128), extreme-ratio shapes, valid fee triples): the spread_amount it reports — the figure max_spread is enforced on, and which the live checks read back from the swap's attributes — must equal the price impact max(0, floor(offer * floor(ask_pool*1e18/offer_pool) / 1e18) - gross return), computed independently in 1024-bit integers, up to one base unit plus the 18-decimal granularity of the rate (offer/1e18). Non-trivial: the computation succeeded and the spread is positive."
+    }
+    fn strategy(&self, tier: Tier) -> BoxedStrategy<Self::Case> {
+        crate::props::c02::CpSwapExact.strategy(tier)
+    }
+    fn cases(&self, tier: Tier) -> u32 {
+        tier.pick(1_000_000, 60_000_000)
+    }
+    fn min_nontrivial(&self) -> f64 {
+        0.05
+    }
+    fn test(&self, c: &Self::Case, rec: &Rec) -> TResult {
+        use crate::props::c02::{call, Out};
+        let (op, ap, offer) = (c.offer_pool.u128(), c.ask_pool.u128(), c.offer.u128());
+        let fees = [c.fees[0].u128(), c.fees[1].u128(), c.fees[2].u128()];
+        if let Out::Ok { spread, .. } = call(op, ap, offer, fees, c.decimals) {
+            let reference = crate::refmath::cp_swap(op, ap, offer, fees);
+            if spread > 0 {
+                rec.nontrivial(hash_of(c));
+                rec.sample(c);
+            }
+            // tolerance: one base unit plus the 18-decimal granularity of the rate on this offer — a
+            // different but equally valid rounding of the rate must not be reported
+            let tol = u(1) + u(offer) / u(E18);
+            let diff = if u(spread) > reference.spread { u(spread) - reference.spread } else { reference.spread - u(spread) };
+            ensure!(
+                diff <= tol,
+                "spread {spread} differs from the price impact max(0, floor(offer*floor(ask*1e18/offer_pool)/1e18) - gross) = {} by more than {tol} (offer_pool={op} ask_pool={ap} offer={offer})",
+                reference.spread
+            );
+            rec.class("spread_compared");
+        } else {
+            rec.class("not_computed");
+        }
+        Ok(())
+    }
+}
+
+// ---------------------------------------------------------------------------------------------
 // pure: deposit slippage tolerance (pair constant product / stableswap, trio)
 // ---------------------------------------------------------------------------------------------
 
@@ -1049,6 +1099,7 @@ pub fn property() -> Property {
         id: "C15",
         checks: vec![
             Box::new(MaxSpreadPure),
+            Box::new(SpreadFigure),
             Box::new(DepositSlippagePure),
             Box::new(LiveSpread),
             Box::new(LiveDepositSlippage),
